@@ -25,11 +25,18 @@ type Entry struct {
 	Wild               bool
 	Star               bool   `json:",omitempty"` // the entry is "*"
 	Pad                string `json:",omitempty"` // spaces around the entry / trailing slash
+	Blank              string `json:",omitempty"` // the entry is an empty string ("empty") or only blanks ("space"): names no origin (what strings.Split of an unset variable yields)
 }
 
 func (e Entry) String() string {
 	if e.Star {
 		return "*"
+	}
+	switch e.Blank {
+	case "empty":
+		return ""
+	case "space":
+		return "  "
 	}
 	h := e.Host
 	if e.Wild {
@@ -125,7 +132,7 @@ func (c Case) allowed() bool {
 		return false
 	}
 	for _, e := range c.Entries {
-		if e.Star || strings.ToLower(e.Scheme) != scheme || e.Port != port {
+		if e.Star || e.Blank != "" || strings.ToLower(e.Scheme) != scheme || e.Port != port {
 			continue
 		}
 		eh := strings.ToLower(e.Host)
@@ -307,6 +314,9 @@ func genCase(t *rapid.T) Case {
 		if rapid.IntRange(0, 11).Draw(t, "star") == 0 {
 			e = Entry{Star: true}
 		}
+		if rapid.IntRange(0, 11).Draw(t, "blank") == 0 {
+			e = Entry{Blank: rapid.SampledFrom([]string{"empty", "space"}).Draw(t, "blankkind")}
+		}
 		c.Entries = append(c.Entries, e)
 	}
 	if rapid.IntRange(0, 3).Draw(t, "func") == 0 {
@@ -345,7 +355,7 @@ func genRequest(t *rapid.T, c *Case) {
 	var base Entry
 	var real []Entry
 	for _, e := range c.Entries {
-		if !e.Star {
+		if !e.Star && e.Blank == "" {
 			real = append(real, e)
 		}
 	}
